@@ -111,10 +111,14 @@ def spec_from_seed(run_seed, tier):
         used = "".join(u for u, _ in blocks)
         # connector tokens between blocks: single two-valent atoms of an element that occurs nowhere else (clean class)
         conns = [c for c, el in (("S", "S"), ("[Se]", "Se"), ("O", "O"), ("[Te]", "Te")) if el not in used]
+        # direction of growth: {[>] [<]U[>] [<]} grows from the unit's '>' atom, {[<] [<]U[>] [>]} (30 %) from its '<' atom
+        rev = rnd.random() < 0.3
+        if rev:
+            tags.append("direction:reversed")
         for bi, (u, dist) in enumerate(blocks):
             if bi > 0 and variant == "connector" and conns:
                 text += conns.pop(rnd.randrange(len(conns)))
-            text += "{[>]" + u.format("[<]", "[>]") + "[<]}" + dist
+            text += ("{[<]" + u.format("[<]", "[>]") + "[>]}" if rev else "{[>]" + u.format("[<]", "[>]") + "[<]}") + dist
         text += suffix
     # a query against ANOTHER molecule that fails (unparsable SMILES, or a law whose interval probability raises) precedes the
     # queries of this run in 40 % of the runs: whatever the failed search leaves behind must not reach the next one
